@@ -219,6 +219,7 @@ def main(tier, seed):
     nb = 16 if tier == "quick" else 64
     batches = [{"cases": cases[i::nb]} for i in range(nb)]
     acc = harness.run_workers("checks.c04_inbound", "run_batch", batches, 3000)
+    harness.require_vnet_fidelity(acc)
     return harness.finish(PROP, tier, seed, "exploration", acc, RULE,
                           ["vnet is a model of Linux TCP sockets (fidelity self-test in tools/selftest_vnet.py); schedules are explored at "
                            "synchronisation-operation and source-line granularity of transport.py/setup.py/statemachine.py",
